@@ -1,4 +1,4 @@
-CONSTANTS NP = 2 NN = 4
+CONSTANTS NP = 3 NN = 5
 SPECIFICATION TSpec
 POSTCONDITION Report
 CHECK_DEADLOCK FALSE
